@@ -56,6 +56,7 @@ type nodeSpec struct {
 	shutBlocks bool          // Shutdown cannot return while the gate is closed (it needs what the wedged processing call holds)
 	// async behaviour: 0 answer inline, 1 answer from another goroutine after latency, 2 keep a backlog and flush it in Shutdown
 	asyncMode int
+	shutDelay time.Duration // how long Shutdown takes before it flushes and returns
 	structErr bool // return FBError instead of a plain error
 	isHandler bool
 	subs      []string
@@ -203,6 +204,13 @@ func (v *vnode) Shutdown() error {
 	s.mu.Lock()
 	s.shutCount++
 	s.shutEnter = nextSeq()
+	delay := s.shutDelay
+	s.mu.Unlock()
+	if delay > 0 {
+		// a Shutdown that takes its time (a bulk flush, a producer draining its queue) before it hands back what it still holds
+		time.Sleep(delay)
+	}
+	s.mu.Lock()
 	backlog := s.backlog
 	s.backlog = nil
 	s.mu.Unlock()
@@ -489,6 +497,8 @@ type sourceScript struct {
 	stopAt          int // call executor.Shutdown (through stopFn) after this many emitted events in total (-1 never)
 	emitted         int
 	stopFn          func()
+	hookAt          int    // hookFn is called when this many events have been emitted
+	hookFn          func() // something else the application does in the same process meanwhile
 	outCh           []string // identity of the output channel seen by each incarnation
 	params          []string
 	lastStartReturn int64
@@ -496,6 +506,7 @@ type sourceScript struct {
 	blockedEmits    int
 	setupDelay      map[int]time.Duration // per incarnation: how long Setup takes
 	cancelWrap      bool                  // failures wrap context.Canceled
+	quiet           bool                  // not the scenario's source: its lifecycle is not streamed
 	errKind         string                // "retriable": failures carry (or wrap) an error with IsRetriable() == true, as kafka.Error does
 	receiptIncs     []int                 // which incarnation each entry of receipts was handed to
 }
@@ -515,7 +526,7 @@ func (e *retriableErr) IsRetriable() bool { return true }
 // the entries to stderr, because it never gets to print an observation
 func (s *sourceScript) logf(entry string) {
 	s.log = append(s.log, entry)
-	if os.Getenv("FBV_CHILD") != "" {
+	if os.Getenv("FBV_CHILD") != "" && !s.quiet {
 		fmt.Fprintln(os.Stderr, "LOG "+entry)
 	}
 	switch {
@@ -618,9 +629,13 @@ func (v *vsource) Start() error {
 		p := s.events[0]
 		s.events = s.events[1:]
 		stop := s.stopAt >= 0 && s.emitted == s.stopAt
+		hook := s.hookFn != nil && s.emitted == s.hookAt
 		s.mu.Unlock()
 		if stop && s.stopFn != nil {
 			s.stopFn()
+		}
+		if hook {
+			s.hookFn()
 		}
 		select {
 		case <-v.done:
